@@ -12,6 +12,21 @@ class OutOfModel(Exception):
     pass
 
 
+class unlimited(object):
+    """Lift CPython's int->str digit limit while the harness itself writes an integer in decimal."""
+
+    def __enter__(self):
+        import sys
+        self.old = sys.get_int_max_str_digits() if hasattr(sys, 'get_int_max_str_digits') else None
+        if self.old is not None:
+            sys.set_int_max_str_digits(0)
+
+    def __exit__(self, *a):
+        import sys
+        if self.old is not None:
+            sys.set_int_max_str_digits(self.old)
+
+
 def _opt(x, f):
     return 'N' if x is None else f(x)
 
@@ -34,7 +49,8 @@ def enc_const(v):
     if v is Ellipsis:
         return 'ellipsis'
     if isinstance(v, int):
-        return '(int %d)' % v
+        with unlimited():
+            return '(int %d)' % v
     if isinstance(v, float):
         return '(float %s)' % enc_str(repr(v))
     if isinstance(v, complex):
